@@ -169,6 +169,16 @@ def summarize(body, blocks, end, env0=None, named_only=True, mk=False):
         nxt = blocks[i + 1] if i + 1 < n else (end[1] if end[0] == 'back' else None)
         if 'call' in t:
             fn = t['call'].get('fn')
+            if fn is None and isinstance(t['call'].get('indirect'), dict):
+                # a call through a function pointer whose value is, on this path, one function item (`let f: fn(..) = match .. { .. => g, ..}`)
+                try:
+                    fv = ev.operand({'copy': t['call']['indirect']})
+                    while fv[0] == 'cast':
+                        fv = fv[2]
+                    if fv[0] == 'cfn':
+                        fn = fv[1]
+                except Exception:
+                    pass
             args = tuple(ev.operand(a) for a in t['args'])
             if fn in LEN_FNS and len(args) == 1:
                 res = ('len', strip_ref(args[0]))
